@@ -701,6 +701,43 @@ def registries_are_separate_along_a_path(col):
             col.violation('C01/failing-lookup-with-a-falsy-exception-not-reported', 'glom(.., %r): %r%s; expected %s' % (
                 spec, got, '' if got.ok or not isinstance(got.exc, PathAccessError) else ' (part_idx %r)' % got.exc.part_idx,
                 'the value %r' % (want,) if not isinstance(want, tuple) else 'a PathAccessError for part %d carrying the (falsy) error of the lookup' % want[1]), None)
+    # a plain segment "cannot be accessed" whatever the class of the exception its lookup raises (a backend that is down, a lazy
+    # field that fails to load): the error is pinpointed for that segment and carries the lookup's own exception
+    class BackendDown(Exception):
+        pass
+
+    class Lazy:
+        def __init__(self, **kw):
+            self.__dict__.update(kw)
+
+        @property
+        def remote(self):
+            raise OSError(5, 'backend down')
+
+        @property
+        def ratio(self):
+            return 1 // 0
+
+    class Remote(dict):
+        def __missing__(self, key):
+            raise BackendDown(key)
+    odd_target = lambda: {'o': Lazy(a=Lazy(b=1), x=5), 'd': Remote(k=Remote(j=2), a={'b': 3}), 'l': [Lazy(b=2)]}
+    for spec, want in (('o.a.b', 1), ('o.remote', ('pae', 1, OSError)), ('o.remote.b', ('pae', 1, OSError)), ('o.a.ratio', ('pae', 2, ZeroDivisionError)),
+                       ('o.a.ratio.real', ('pae', 2, ZeroDivisionError)), (Path('o', 'a', 'remote', 'x'), ('pae', 2, OSError)), ('l.0.remote', ('pae', 2, OSError)),
+                       ('d.k.j', 2), ('d.zz', ('pae', 1, BackendDown)), ('d.zz.a', ('pae', 1, BackendDown)), ('d.k.zz.j', ('pae', 2, BackendDown)),
+                       (Path('d', 'k', 'zz'), ('pae', 2, BackendDown)), (Path(T['d'], 'zz', 'a'), ('pae', 1, BackendDown)), (Path(T['o'].a, 'ratio'), ('pae', 2, ZeroDivisionError))):
+        got = call(G, odd_target(), spec)
+        col.case(('lookup-error-of-an-unusual-class', short(spec)), True)
+        if isinstance(want, tuple):
+            col.count('failing_paths')
+            ok = (not got.ok) and isinstance(got.exc, PathAccessError) and got.exc.part_idx == want[1] and isinstance(got.exc.exc, want[2])
+        else:
+            col.count('valid_paths')
+            ok = got.ok and got.value == want
+        if not ok:
+            col.violation('C01/failing-lookup-with-an-unusual-exception-class-not-reported', 'glom(.., %r): %r%s; expected %s' % (
+                spec, got, '' if got.ok or not isinstance(got.exc, PathAccessError) else ' (part_idx %r, carried %r)' % (got.exc.part_idx, got.exc.exc),
+                'the value %r' % (want,) if not isinstance(want, tuple) else 'a PathAccessError for part %d carrying the %s of the lookup' % (want[1], want[2].__name__)), None)
     for name, runner in (('busy', busy.glom), ('idle', idle.glom), ('created-afterwards', fresh.glom), ('glom', G)):
         for spec, want in cases:
             got = call(runner, mk(), spec)
